@@ -54,6 +54,10 @@ def ledgerStep (cfg : BruteForceConfig) (t : Nat) (e : Ev) (l : Ledger) : Ledger
   | .query _ => (l, some (l.refuses t))
   | .asyncUnban _ => (l, none)
   | .cleanup => (if (l.fails.filter (inWindow cfg t)).length == 0 then { l with fails := [] } else l, none)
+  | .cleanFr => (if (l.fails.filter (inWindow cfg t)).length == 0 then { l with fails := [] } else l, none)
+  | .cleanBan => (l, none)
+  | .sweepScan => (l, none)
+  | .sweepDelete => (l, none)
 
 abbrev Ledgers := Nat → Ledger
 
